@@ -77,8 +77,9 @@ def impl_variant(kind, cfg, x, extra):
             st, r = _run(lambda: sift.ensemble_sift(X, nensembles=extra['nens'], ensemble_noise=0, nprocesses=1, sift_thresh=thr,
                                                     max_imfs=cap, imf_opts=toys.imf_opts(cfg)) * extra['nens'])
         elif kind == 'ceemd':
+            io = None if cfg[1:14] == DEFAULT_TAIL else toys.imf_opts(cfg)
             st, r = _run(lambda: sift.complete_ensemble_sift(X, nensembles=extra['nens'], ensemble_noise=0, nprocesses=1, sift_thresh=thr,
-                                                             max_imfs=cap)[0])
+                                                             max_imfs=cap, imf_opts=io)[0])
         elif kind == 'second':
             IA = np.array(extra['IA'], dtype=float).T
             args = dict(sift_thresh=thr, imf_opts=toys.imf_opts(cfg))
@@ -214,8 +215,12 @@ def run(ctx):
             x = toys.gen_signal(ctx.rng)
             extra = {}
             if kind == 'ceemd':
-                # toy rule 1 diverges under the default limit of 1000 iterations (bignums in the model, inf in floats)
-                cfg = [cfg[0] if cfg[0] != 1 else 4] + DEFAULT_TAIL + [cfg[14], ctx.rng.choice([0, 1, 2, 3, 4]), 0]
+                # every third case with the default extraction options (limit 1000: toy rule 1 diverges there - bignums in the
+                # model, inf in floats - and is replaced), the others with random ones
+                if i % 3 == 0:
+                    cfg = [cfg[0] if cfg[0] != 1 else 4] + DEFAULT_TAIL + [cfg[14], ctx.rng.choice([0, 1, 2, 3, 4]), 0]
+                else:
+                    cfg[15] = ctx.rng.choice([0, 1, 2, 3, 4])
                 extra = dict(nens=ctx.rng.choice([1, 2, 4]))
                 lit = '(%s, %s)' % (zlist(cfg), zlist(x))
                 expr = 'run_toy_ceemd (fst c) (snd c)'
